@@ -21,7 +21,7 @@ typedef struct {
 #define MAXI 5
 static item_t I[MAXI]; static int NI;
 static vh_sig_t sig;
-static const scpi_command_t cmds[] = { { "CMD", vh_handler, 1 }, { "QRY?", vh_handler, 1 }, { "NOOP", vh_handler, 2 }, SCPI_CMD_LIST_END };
+static const scpi_command_t cmds[] = { { "CMD", vh_handler, 1 }, { "QRY?", vh_handler, 1 }, { "NOOP", vh_handler, 2 }, { "FAIL", vh_handler, 3 }, SCPI_CMD_LIST_END };
 
 static const struct { const char * s; int unit; double mult; } sufs[] = {
     { "V", SCPI_UNIT_VOLT, 1 }, { "MV", SCPI_UNIT_VOLT, 1e-3 }, { "kohm", SCPI_UNIT_OHM, 1e3 }, { "HZ", SCPI_UNIT_HERTZ, 1 }, { "mhz", SCPI_UNIT_HERTZ, 1e6 },
@@ -321,6 +321,12 @@ static void p1_run(uint64_t idx, vh_rng_t * rng) {
     v = vh_ctx_new(cmds, 700, 8, 128); v->log_enabled = 0; v->sigs = &sig; v->nsigs = 1;
     vh_input(v, msg.p, msg.len);
     if (flush_mode) vh_input(v, NULL, 0);
+    else if (v->nerrs == 0 && v->ninv == 0 && v->ctx->buffer.position > 0) {
+        /* an unterminated quote or block makes the terminator part of the data: the message is still pending, not executed.
+         * It is completed by a flush like any other unterminated input and judged then. */
+        vh_count("malformed.pending_until_flush", 1);
+        vh_input(v, NULL, 0); flush_mode = 2;
+    }
     vh_eval(1);
     for (i = 0; i < v->nerrs; i++) if (v->errs[i] <= -100 && v->errs[i] >= -199) cmd_errs++;
     if (!cmd_errs) {
@@ -376,11 +382,43 @@ static void p2_run(uint64_t idx, vh_rng_t * rng) {
     vh_ctx_free(v);
 }
 
+/* phase 3: several units in one message - the error accounting of a unit must not depend on what earlier units raised */
+static uint64_t p3_count(int thorough) { return vh_scaled(thorough ? 400000 : 40000); }
+static void p3_run(uint64_t idx, vh_rng_t * rng) {
+    static const struct { const char * t; int err; } us[] = { { "NOOP", 0 }, { "NOOP 5", -108 }, { "CMD", -109 }, { "CMD 5", 0 }, { "CMD 5,6", -108 }, { "CMD \"x\"", -104 }, { "CMD 5 V", -138 },
+        { "FAIL", -200 }, { "FAIL 1", -200 }, { "FOO", -113 }, { "", 0 }, { "cmd 7 ", 0 }, { ":NOOP 1,2", -108 } };
+    static vh_sig_t s3[3]; static vh_buf_t msg;
+    int nu = 2 + (int) vh_below(rng, 3), u, exp[6], ne = 0, i, bad = 0; vh_ctx_t * v; scpi_bool_t ret; char key[96];
+    (void) idx;
+    memset(s3, 0, sizeof s3);
+    s3[0].nsteps = 1; s3[0].steps[0].kind = VR_INT32; s3[0].steps[0].mandatory = 1;
+    s3[2].verdict = VV_ERR;
+    vh_buf_reset(&msg);
+    for (u = 0; u < nu; u++) { int k = (int) vh_below(rng, sizeof us / sizeof us[0]); if (u) vh_buf_adds(&msg, vh_chance(rng, 1, 4) ? " ; " : ";"); vh_buf_adds(&msg, us[k].t); if (us[k].err) exp[ne++] = us[k].err; }
+    vh_buf_addc(&msg, '\n');
+    vh_case_desc("multi-unit message %s", vh_esc(msg.p, msg.len));
+    v = vh_ctx_new(cmds, 256, 16, 256); v->log_enabled = 0; v->sigs = s3; v->nsigs = 3;
+    ret = vh_input(v, msg.p, msg.len);
+    vh_eval(1);
+    if (v->nerrs != ne) bad = 1; else for (i = 0; i < ne; i++) if (v->errs[i] != exp[i]) bad = 1;
+    if (bad) {
+        vh_buf_t a = { 0, 0, 0 }, b = { 0, 0, 0 };
+        for (i = 0; i < v->nerrs; i++) vh_buf_printf(&a, "%d ", v->errs[i]);
+        for (i = 0; i < ne; i++) vh_buf_printf(&b, "%d ", exp[i]);
+        snprintf(key, sizeof key, "C05:multi-unit-error-sequence:%s", v->nerrs < ne ? "error-missing-after-earlier-unit" : (v->nerrs > ne ? "extra-error" : "different-code"));
+        vh_violation(key, "message %s: errors raised [%s], each unit on its own raises [%s]", vh_esc(msg.p, msg.len), vh_buf_cstr(&a), vh_buf_cstr(&b));
+        vh_buf_free(&a); vh_buf_free(&b);
+    } else vh_count(ne >= 2 ? "clause.multi_unit_two_or_more_errors" : "clause.multi_unit_ok", 1);
+    if ((ret ? 1 : 0) != (ne == 0)) vh_violation("C05:input-return-value:multi-unit", "message %s returned %d with %d errors", vh_esc(msg.p, msg.len), (int) ret, ne);
+    vh_distinct(vh_hash(msg.p, msg.len, 123));
+    vh_ctx_free(v);
+}
+
 int main(int argc, char ** argv) {
-    static const vh_phase_t phases[] = { { "well-formed lists x signatures", p0_count, p0_run }, { "malformed data", p1_count, p1_run }, { "input return value", p2_count, p2_run } };
+    static const vh_phase_t phases[] = { { "well-formed lists x signatures", p0_count, p0_run }, { "malformed data", p1_count, p1_run }, { "input return value", p2_count, p2_run }, { "several units per message", p3_count, p3_run } };
     vh_require("clause.error-109"); vh_require("clause.error-108"); vh_require("clause.error-104"); vh_require("clause.error-138"); vh_require("clause.error-131");
     vh_require("clause.error-224"); vh_require("clause.error-200"); vh_require("clause.optional_absent_silent"); vh_require("clause.item_delivered_whole");
     vh_require("clause.no_error"); vh_require("clause.malformed_gets_command_error"); vh_require("clause.return_true"); vh_require("clause.return_false");
-    vh_require("clause.return_false_on_overrun"); vh_require("ws.after_item");
-    return vh_main(argc, argv, "C05", phases, 3);
+    vh_require("clause.return_false_on_overrun"); vh_require("ws.after_item"); vh_require("clause.multi_unit_two_or_more_errors");
+    return vh_main(argc, argv, "C05", phases, 4);
 }
